@@ -131,7 +131,9 @@ func c12(c *Ctx) {
 				c.ok(r, fnName(fn)+":checkConstraints-after-last-write", c.pos(s.Pos()), fmt.Sprintf("every path from each of the %d row-image updates to doUpsert passes checkConstraints", len(upd)))
 			}
 			c.ruleErrChecked(r, fn, "checkConstraints", check, 1)
-			// the image validated is the one written: the Row handed to checkConstraints is refreshed from the image
+			// the image validated is the one written: every value put into the image is also shown to the Row handed to
+			// checkConstraints - stored into Row.ValuesBySelector itself, or the Row is rebuilt from the image afterwards
+			c12ValidatedRowCarriesWrittenValues(c, fn, img, upd, check, s)
 			// ---- C12.2 sibling validation agreement ------------------------------------------------------------------
 			r2 := "C12.2/assignment-validation-parity"
 			nAssign := 0
@@ -412,6 +414,48 @@ func c12(c *Ctx) {
 			c.undecided(r, "floor", fmt.Sprintf("%d column changes by DDL statements found", n))
 		}
 	}
+	// TRUNCATE drops the table and creates it again: every index but the primary one (which comes back with the table)
+	// has to be carried over, a UNIQUE index that is not is a uniqueness constraint silently gone.
+	{
+		r := "C12.17/truncate-keeps-every-secondary-index"
+		if f := c.mustFn(r, "embedded/sql.(*TruncateTableStmt).execAt"); f != nil {
+			var carried []ssa.Instruction
+			allInstrs(f, false, func(in ssa.Instruction) {
+				if u, ok := in.(*ssa.UnOp); ok && u.Op == token.MUL {
+					if fl, _ := fieldOf(u); fl == "Index.unique" {
+						carried = append(carried, in)
+					}
+				}
+			})
+			if len(carried) == 0 {
+				c.undecided(r, fnName(f)+":carried-index", "no read of Index.unique: the place where secondary indexes are carried over was not found")
+			}
+			for i, a := range carried {
+				var filters []string
+				for _, b := range f.Blocks {
+					if len(b.Instrs) == 0 || b == a.Block() || !b.Dominates(a.Block()) || !reaches(a.Block(), b, nil) {
+						continue
+					}
+					ifi, ok := b.Instrs[len(b.Instrs)-1].(*ssa.If)
+					if !ok {
+						continue
+					}
+					atom, _ := normCond(ifi.Cond)
+					if strings.Contains(atom, ".primaryIndex") || strings.Contains(atom, ".IsPrimary[") {
+						continue
+					}
+					if strings.Contains(atom, " < len(") || strings.HasPrefix(atom, "extract:") || strings.Contains(atom, "next:") {
+						continue // the loop's own condition
+					}
+					filters = append(filters, atom+" @"+c.pos(ifi.Pos()))
+				}
+				c.check(len(filters) == 0, r, fmt.Sprintf("%s:carried-index#%d:only-the-primary-index-is-skipped", fnName(f), i), c.pos(a.Pos()), "inside the loop over the indexes nothing but the comparison with the primary index decides whether an index is carried over",
+					"an index is carried over TRUNCATE only when "+strings.Join(filters, "; ")+" allows it: indexes other than the primary one are dropped, and with them the uniqueness they enforce")
+			}
+			n := len(sites(f, callTo("embedded/sql.(*CreateIndexStmt).execAt")))
+			c.check(n > 0, r, fnName(f)+":indexes-are-created-again", c.pos(f.Pos()), "the carried indexes are created again", "TRUNCATE does not create any index again")
+		}
+	}
 	// constraints are kept in maps keyed by their name: inserting under a name that is already there drops a declared
 	// constraint without a word, so every insertion into such a map is preceded by a lookup of the same key
 	{
@@ -529,5 +573,76 @@ func c12QueryFailureAborts(c *Ctx, r string) {
 		c.fail(r, fnName(f)+":dml-failure->Cancel", c.pos(w[len(w)-1].Pos()), "a data-modifying statement is run by the query path in a transaction for which no cancel-on-error is registered: if it fails half way, what it wrote stays in the open transaction and can be committed ("+c.witnessStr(w)+")")
 	} else {
 		c.ok(r, fnName(f)+":dml-failure->Cancel", c.pos(f.Pos()), "a deferred Cancel-on-error is registered on every path to the execution of a statement that is not read-only")
+	}
+}
+
+// c12ValidatedRowCarriesWrittenValues: C12.1 second half. checkConstraints evaluates a *Row, doUpsert writes the image
+// (valuesByColID): a value stored into the image that the Row never receives is written without having been checked.
+// Accepted idioms (both present in the tree): (a) the same value is stored into Row.ValuesBySelector after the image
+// update; (b) the Row is refreshed from lookups on the image after the update. In both cases a checkConstraints call follows.
+func c12ValidatedRowCarriesWrittenValues(c *Ctx, fn *ssa.Function, img ssa.Value, upd []ssa.Instruction, check sitePred, sink ssa.Instruction) {
+	r := "C12.1/validated-row-carries-the-written-values"
+	checks := sites(fn, check)
+	var refresh []*ssa.MapUpdate
+	allInstrs(fn, false, func(in ssa.Instruction) {
+		if mu, ok := in.(*ssa.MapUpdate); ok {
+			if f, _ := fieldOf(mu.Map); f == "Row.ValuesBySelector" {
+				refresh = append(refresh, mu)
+			}
+		}
+	})
+	if len(checks) == 0 || len(refresh) == 0 {
+		c.undecided(r, fnName(fn)+":row-refresh", fmt.Sprintf("%d checkConstraints call(s), %d store(s) into Row.ValuesBySelector", len(checks), len(refresh)))
+		return
+	}
+	fromImage := func(v ssa.Value) bool {
+		l, ok := v.(*ssa.Lookup)
+		return ok && l.X == img
+	}
+	// "follows" within one row: a path that goes through the write of the row (doUpsert) belongs to the next row
+	follows := func(a, b ssa.Instruction) bool {
+		if a.Block() == b.Block() && idxIn(b) > idxIn(a) {
+			return true
+		}
+		if a.Block() == sink.Block() {
+			return false
+		}
+		for _, sc := range a.Block().Succs {
+			if reaches(sc, b.Block(), sink.Block()) {
+				return true
+			}
+		}
+		return false
+	}
+	n := 0
+	for _, u := range upd {
+		mu := u.(*ssa.MapUpdate)
+		n++
+		construct := fmt.Sprintf("%s:image-update#%d", fnName(fn), n)
+		checked := false
+		for _, ck := range checks {
+			if follows(u, ck) {
+				checked = true
+			}
+		}
+		if !checked {
+			// nothing validates after this update: C12.1/validate-after-last-write decides whether that is acceptable
+			c.ok(r, construct, c.pos(u.Pos()), "no checkConstraints call follows this update")
+			continue
+		}
+		shown := false
+		for _, rf := range refresh {
+			same := dependsOn(rf.Value, func(v ssa.Value) bool { return v == mu.Value }) || dependsOn(rf.Value, fromImage)
+			if !same || !follows(u, rf) {
+				continue
+			}
+			for _, ck := range checks {
+				if follows(rf, ck) {
+					shown = true
+				}
+			}
+		}
+		c.check(shown, r, construct, c.pos(u.Pos()), "the value stored into the row image also reaches the Row that checkConstraints evaluates",
+			"a value is stored into the row image written by doUpsert ("+desc(mu.Value)+") but the Row evaluated by the following checkConstraints never receives it: CHECK constraints are evaluated on something else than the row written")
 	}
 }
